@@ -962,6 +962,43 @@ def suite_C13():
     add('sum(1 til 6)', '15', what='sum of a stream')
     add('sort({3: 0, 1: 0, 2: 0} filter (>1))', '[2, 3]', what='filter of dict keys')
     add('sort({3: 0, 1: 0, 2: 0} map (*2))', '[2, 4, 6]', what='map over dict keys')
+    # every sequence kind through the kind-preserving helpers, numeric parameters also held as big integers
+    for xs in [[], [5], [3, 1, 2, 3], [2, 2, 1, 0, 2, 9, 9]]:
+        for kind, mk, same in [('vector', 'vector(%s)', 'vector(%s)'), ('bytes', 'bytes(%s)', 'bytes(%s)'), ('stream', 'stream(%s)', '%s'), ('list', '%s', '%s')]:
+            X = mk % nlit(xs)
+            K = lambda v: same % nlit(v)          # result of a kind-preserving function
+            KL = lambda vs: '[%s]' % ', '.join(K(v) for v in vs)
+            u = []
+            for x in xs:
+                if x not in u:
+                    u.append(x)
+            add('%s filter (>1)' % X, K([x for x in xs if x > 1]), what='filter keeps the kind', kind=kind)
+            add('%s reject (>1)' % X, K([x for x in xs if not x > 1]), what='reject keeps the kind', kind=kind)
+            add('reverse(%s)' % X, K(xs[::-1]), what='reverse keeps the kind', kind=kind)
+            add('sort(%s)' % X, K(sorted(xs)), what='sort keeps the kind', kind=kind)
+            add('unique(%s)' % X, K(u), what='unique keeps the kind', kind=kind)
+            add('%s sort_on (\\x -> 0 - x)' % X, K(sorted(xs, key=lambda x: -x)), what='sort_on keeps the kind', kind=kind)
+            add('%s take (>1)' % X, K(list(it.takewhile(lambda x: x > 1, xs))), what='take (predicate) keeps the kind', kind=kind)
+            add('list(%s drop (>1))' % X, nlit(list(it.dropwhile(lambda x: x > 1, xs))), what='drop (predicate)', kind=kind)
+            add('%s map (+1)' % X, nlit([x + 1 for x in xs]), what='map gives a list', kind=kind)
+            add('%s partition (>1)' % X, nlit([[x for x in xs if x > 1], [x for x in xs if not x > 1]]), what='partition gives lists', kind=kind)
+            add('prefixes(%s)' % X, KL([xs[:i] for i in range(len(xs) + 1)]), what='prefixes keep the kind', kind=kind)
+            add('suffixes(%s)' % X, KL([xs[len(xs) - i:] for i in range(len(xs) + 1)]), what='suffixes keep the kind', kind=kind)
+            add('sum(%s)' % X, nlit(sum(xs)), what='sum', kind=kind)
+            add('%s count 2' % X, nlit(xs.count(2)), what='count', kind=kind)
+            if kind != 'stream':
+                add('%s ++ %s' % (X, X), K(xs + xs), what='++ keeps the kind', kind=kind)
+            for n in [0, 1, 2, len(xs), len(xs) + 2]:
+                for rep, N in [('small', lit(n)), ('big', big_repr(n))]:
+                    add('%s take %s' % (X, N), K(xs[:n]), what='take n keeps the kind', kind=kind, n=n, repr=rep)
+                    add('list(%s drop %s)' % (X, N), nlit(xs[n:]), what='drop n', kind=kind, n=n, repr=rep)
+                    if n >= 1:
+                        add('%s group %s' % (X, N), KL([xs[i:i + n] for i in range(0, len(xs), n)]), what='group n keeps the kind', kind=kind, n=n, repr=rep)
+                        add('%s window %s' % (X, N), KL([xs[i:i + n] for i in range(0, len(xs) - n + 1)]), what='window n keeps the kind', kind=kind, n=n, repr=rep)
+    for n, N in [(2, big_repr(2)), (0, big_repr(0)), (3, '(6 // 2)'), (2, '(2 ^ 1)')]:
+        add('7 .* %s' % N, nlit([7] * n), what='.* with a computed count', n=n)
+        add('list([1, 2] ^^ %s)' % N, nlit([list(p) for p in it.product([1, 2], repeat=n)]), what='^^ with a computed power', n=n)
+        add('list(combinations([1, 2, 3], %s))' % N, nlit([list(c) for c in it.combinations([1, 2, 3], n)]), what='combinations with a computed size', n=n)
     # long inputs: sorting algorithms switch strategy above ~20 elements
     recs = [[i % 3, i] for i in range(40)]
     add('%s sort_on first' % nlit(recs), nlit(sorted(recs, key=lambda r: r[0])), what='sort_on is stable on 40 records')
